@@ -27,6 +27,8 @@
 (*   "portdef"  an explicit port that happens to be the default port of    *)
 (*              some network (it is still explicit), network and port in   *)
 (*              either source                                              *)
+(*   "teoscli"  the admin tool: its two settings, present / absent in the  *)
+(*              file x on its command line                                 *)
 (*   "bin"      cases for the real teosd binary (subset of "group" plus    *)
 (*              the one-shot switches)                                     *)
 (***************************************************************************)
@@ -41,7 +43,7 @@ CONSTANTS Families,     \* which families to enumerate
 
 VARIABLES fam, ctxv     \* labels of the case (ghost)
 
-vars == <<file, cli, stage, conf, fam, ctxv>>
+vars == <<prog, file, cli, stage, conf, fam, ctxv>>
 
 -----------------------------------------------------------------------------
 FileVal ==
@@ -113,14 +115,14 @@ InitGroup ==
     /\ \E ctx \in Contexts, fn \in NetF, cn \in NetC, fp \in BOOLEAN, cp \in BOOLEAN,
           fc \in SUBSET CredOpts, cc \in SUBSET CredOpts :
             /\ fam = "group" /\ ctxv = ctx
-            /\ InitWith(CaseFile(ctx, GroupOpts, GroupFilePart(fn, fp, fc)),
+            /\ InitWith("teosd", CaseFile(ctx, GroupOpts, GroupFilePart(fn, fp, fc)),
                         CaseCli(ctx, GroupOpts, GroupCliPart(cn, cp, cc)))
 
 InitPlain ==
     /\ "plain" \in Families
     /\ \E ctx \in Contexts, fs \in SUBSET PlainOpts, cs \in SUBSET PlainOpts :
             /\ fam = "plain" /\ ctxv = ctx
-            /\ InitWith(CaseFile(ctx, PlainOpts, Restrict(FileVal, fs)),
+            /\ InitWith("teosd", CaseFile(ctx, PlainOpts, Restrict(FileVal, fs)),
                         CaseCli(ctx, PlainOpts, Restrict(CliVal, cs)))
 
 InitSwitch ==
@@ -128,13 +130,13 @@ InitSwitch ==
     /\ \E ctx \in Contexts, fs \in SUBSET SwitchOpts, cs \in SUBSET SwitchOpts :
          \E fv \in [fs -> BOOLEAN] :
             /\ fam = "switch" /\ ctxv = ctx
-            /\ InitWith(CaseFile(ctx, SwitchOpts, fv), CaseCli(ctx, SwitchOpts, AllTrue(cs)))
+            /\ InitWith("teosd", CaseFile(ctx, SwitchOpts, fv), CaseCli(ctx, SwitchOpts, AllTrue(cs)))
 
 InitFileOnly ==
     /\ "fileonly" \in Families
     /\ \E ctx \in Contexts, fs \in SUBSET FileOnlyOpts :
             /\ fam = "fileonly" /\ ctxv = ctx
-            /\ InitWith(CaseFile(ctx, FileOnlyOpts, Restrict(FileVal, fs)), CaseCli(ctx, FileOnlyOpts, EmptyFn))
+            /\ InitWith("teosd", CaseFile(ctx, FileOnlyOpts, Restrict(FileVal, fs)), CaseCli(ctx, FileOnlyOpts, EmptyFn))
 
 InitPortDef ==
     /\ "portdef" \in Families
@@ -144,8 +146,16 @@ InitPortDef ==
              cr == Restrict(FileVal, {"btc_rpc_cookie"})
          IN /\ n = Absent => nf      \* (no duplicates)
             /\ fam = "portdef" /\ ctxv = ctx
-            /\ InitWith(CaseFile(ctx, GroupOpts, Join(cr, Join(IF nf THEN np ELSE EmptyFn, IF pf THEN pp ELSE EmptyFn))),
+            /\ InitWith("teosd", CaseFile(ctx, GroupOpts, Join(cr, Join(IF nf THEN np ELSE EmptyFn, IF pf THEN pp ELSE EmptyFn))),
                         CaseCli(ctx, GroupOpts, Join(IF nf THEN EmptyFn ELSE np, IF pf THEN EmptyFn ELSE pp)))
+
+\* teos-cli: its two settings in every presence combination; the rest of the (shared) file comes from the context
+\* and must make no difference; its command line has nothing else.
+InitTeosCli ==
+    /\ "teoscli" \in Families
+    /\ \E ctx \in Contexts, fs \in SUBSET ToolOpts, cs \in SUBSET ToolOpts :
+            /\ fam = "teoscli" /\ ctxv = ctx
+            /\ InitWith("teos-cli", CaseFile(ctx, ToolOpts, Restrict(FileVal, fs)), Restrict(CliVal, cs))
 
 \* Cases for the real binary.  Network pairs <<file, command line>>: nothing; file only; command line only; both
 \* (command line wins); unknown in either; a known name on the command line repairing an unknown one in the
@@ -168,7 +178,7 @@ Bools == <<FALSE, TRUE>>
 
 InitBinCase(ctx, nets, fp, cp, fc, cc, os) ==
     /\ fam = "bin" /\ ctxv = ctx
-    /\ InitWith(CaseFile(ctx, BinOwn, Join(GroupFilePart(nets[1], fp, fc), OneShotFile(os))),
+    /\ InitWith("teosd", CaseFile(ctx, BinOwn, Join(GroupFilePart(nets[1], fp, fc), OneShotFile(os))),
                 CaseCli(ctx, BinOwn, Join(GroupCliPart(nets[2], cp, cc), OneShotCli(os))))
 
 InitBin ==
@@ -181,18 +191,21 @@ InitBin ==
                  InitBinCase(BinCtxs[((i + 2 * j + k + m) % Len(BinCtxs)) + 1], BinNets[i], Bools[j], Bools[k],
                              BinCredsSel[m][1], BinCredsSel[m][2], BinOneShots[((i + j + 2 * k + m) % 3) + 1])
 
-Init == InitGroup \/ InitPlain \/ InitSwitch \/ InitFileOnly \/ InitPortDef \/ InitBin
+Init == InitGroup \/ InitPlain \/ InitSwitch \/ InitFileOnly \/ InitPortDef \/ InitTeosCli \/ InitBin
 
 Next == StartupNext /\ UNCHANGED <<fam, ctxv>>
 
 Spec == Init /\ [][Next]_vars
 
 -----------------------------------------------------------------------------
-CasesAreWellFormed == WellFormed(file, cli)
+CasesAreWellFormed == WellFormed(prog, file, cli)
 
 Meta ==
     [opts |-> [o \in AllOpts |-> [kind |-> Kind(o), cli |-> IF o \in CliOpts THEN CliName[o] ELSE ""]],
      defaults |-> DocDefault,
+     tool_opts |-> ToolOpts,
+     tool_defaults |-> ToolDocDefault,
+     tool_command |-> ToolCommand,
      known_networks |-> KnownNetworks,
      unknown_networks |-> UnknownF \cup UnknownC,
      net_default_port |-> NetDefaultPort,
@@ -203,5 +216,6 @@ ASSUME Emit => PrintT(<<"META", ToJson(Meta)>>)
 \* one line per case, when its start-up sequence has ended
 EmitInv ==
     (Emit /\ Done) =>
-        PrintT(<<"CASE", ToJson([fam |-> fam, ctx |-> ctxv, file |-> file, cli |-> cli, exp |-> Expect(file, cli)])>>)
+        PrintT(<<"CASE", ToJson([fam |-> fam, ctx |-> ctxv, prog |-> prog, file |-> file, cli |-> cli,
+                                 exp |-> Expect(prog, file, cli)])>>)
 =============================================================================
